@@ -363,6 +363,7 @@ impl Property for C07 {
             sink: sink_cfg.clone(),
             fail_read_at: None,
             fail_read_sticky: false,
+            ..Default::default()
         };
         st.eval();
         let ((verdict, sink_total), mem) = alloc::measure(|| -> (Verdict, u64) {
